@@ -25,13 +25,61 @@ KEYS = {1: "is_written_first/partial-array-write",
 HEADER = """From Coq Require Import List ZArith Bool. Import ListNotations.
 From PV Require Import Fort.Syntax Fort.Sem C11.Access C12.InOut.
 Open Scope Z_scope.
-Definition safe_case (c : list stmt * bool) : bool := safe (snd c) (fst c).
-Definition reads_safe_case (c : list stmt * bool) : bool := reads_safe (snd c) (fst c).
-Definition reason_case (c : list stmt * bool * nat * nat) : bool :=
-  match c with (r, sh, x, k) => Nat.eqb (reason sh r x) k end.
+(* one case = a region with its variants (option, reported inputs, reported outputs, culprit variables);
+   result per variant = (lists agree with the model, safe, reads_safe, reason code of every culprit) *)
+Definition variant := (bool * list name * list name * list name)%type.
+Definition eval_variant (r : list stmt) (v : variant) : bool * bool * bool * list nat :=
+  match v with (sh, ins, outs, cs) =>
+    (io_agrees (r, sh, ins, outs), safe sh r, reads_safe sh r, map (reason sh r) cs) end.
+Definition eval_case (c : list stmt * list variant) := map (eval_variant (fst c)) (snd c).
 """
 
-DECL_ARRAYS = None      # set per routine
+
+def coq_eval_values(ctx, header, case_type, fn, cases, shard=60, timeout=900):
+    """Evaluate `fn : case_type -> _` on every case by vm_compute (shards compiled in parallel, each
+    under a timeout) and return the printed values converted to Python (lists/tuples/bools/ints)."""
+    import ast
+    import subprocess
+    d = ctx.scratch / "cases"
+    d.mkdir(exist_ok=True)
+    jobs = []
+    for k in range(0, len(cases), shard):
+        f = d / ("vals_%s_%d.v" % (ctx.prop, k // shard))
+        f.write_text("\n".join([
+            "Require Import Coq.Lists.List Coq.NArith.NArith. Import ListNotations.", header,
+            "Definition the_cases : list (%s) := [\n%s\n]." % (case_type, ";\n".join(cases[k:k + shard])),
+            "Definition res_ := Eval vm_compute in map (%s) the_cases." % fn,
+            "Set Printing Depth 1000000. Set Printing Width 200.",
+            'Goal True. idtac "@@RES-BEGIN". Abort.', "Print res_.", 'Goal True. idtac "@@RES-END". Abort.']) + "\n")
+        jobs.append(f)
+    out, running = [], []
+    maxp = max(1, core.NCPU // 2)
+
+    def reap():
+        f, p = running.pop(0)
+        try:
+            txt, _ = p.communicate(timeout=timeout)
+        except subprocess.TimeoutExpired:
+            p.kill()
+            raise RuntimeError("coqc timeout on %s" % f)
+        m = re.search(r"@@RES-BEGIN(.*)@@RES-END", txt, re.S)
+        if p.returncode != 0 or not m:
+            raise RuntimeError("coqc failed on %s:\n%s" % (f, txt[-3000:]))
+        body = m.group(1).split("=", 1)[1]
+        body = re.split(r"\n\s*:\s*list", body)[0]
+        body = body.replace("%nat", "").replace("%Z", "").replace(";", ",").replace("true", "True").replace("false", "False")
+        out.extend(ast.literal_eval(body.strip()))
+    for f in jobs:
+        if len(running) >= maxp:
+            reap()
+        running.append((f, subprocess.Popen(["coqc", "-Q", str(core.COQ), core.LOGICAL, "-w",
+                                             "-notation-overridden,-deprecated,-ambiguous-paths", str(f)], cwd=d,
+                                            stdout=subprocess.PIPE, stderr=subprocess.STDOUT, text=True)))
+    while running:
+        reap()
+    if len(out) != len(cases):
+        raise RuntimeError("coq_eval_values: %d results for %d cases" % (len(out), len(cases)))
+    return out
 
 
 # ------------------------------------------------------------------ generator
@@ -47,6 +95,15 @@ class Gen12(fortgen.Gen):
             return ("intr", r.choice(["ISize", "ILbound", "IUbound"]),
                     [("var", a), ("lit", r.randint(1, len(self.arrays[a])))])
         return super().expr(env, depth)
+
+    def assign(self, env):
+        """half of the array assignments are read-modify-write (the array is then an input)."""
+        r = self.r
+        st = super().assign(env)
+        if r.random() < 0.6:
+            ref = ("idx", st[1], st[2]) if st[2] else ("var", st[1])
+            return ("assign", st[1], st[2], ("bin", r.choice(["Add", "Sub", "Mul"]), ref, st[3]))
+        return st
 
     def targeted(self, env):
         r = self.r
@@ -93,97 +150,6 @@ class Gen12(fortgen.Gen):
         return out
 
 
-# ------------------------------------------------------------------ python mirror of the access list
-def e_reads(e, sh):
-    k = e[0]
-    if k == "lit":
-        return []
-    if k == "var":
-        return [e[1]]
-    if k == "idx":
-        return [x for i in e[2] for x in e_reads(i, sh)] + [e[1]]
-    if k == "un":
-        return e_reads(e[2], sh)
-    if k == "bin":
-        return e_reads(e[2], sh) + e_reads(e[3], sh)
-    if k == "intr":
-        args = e[2]
-        if e[1] in ("ISize", "ILbound", "IUbound") and not sh:
-            args = args[1:]
-        return [x for a in args for x in e_reads(a, sh)]
-    raise ValueError(e)
-
-
-def s_accs(s, sh):
-    k = s[0]
-    if k == "assign":
-        return ([(x, "R") for x in e_reads(s[3], sh)] + [(x, "R") for i in s[2] for x in e_reads(i, sh)]
-                + [(s[1], "W")])
-    if k == "if":
-        return [(x, "R") for x in e_reads(s[1], sh)] + accs(s[2], sh) + accs(s[3], sh)
-    if k == "do":
-        return ([(s[1], "W"), (s[1], "R")] + [(x, "R") for b in s[2:5] for x in e_reads(b, sh)]
-                + accs(s[5], sh))
-    if k in ("region", "dir"):
-        return accs(s[2], sh)
-    return []
-
-
-def accs(ss, sh):
-    return [a for s in ss for a in s_accs(s, sh)]
-
-
-def e_arrs(e):
-    k = e[0]
-    if k in ("lit", "var"):
-        return []
-    if k == "idx":
-        return [e[1]] + [x for i in e[2] for x in e_arrs(i)]
-    if k == "un":
-        return e_arrs(e[2])
-    if k == "bin":
-        return e_arrs(e[2]) + e_arrs(e[3])
-    if k == "intr":
-        out = []
-        if e[1] in ("ISize", "ILbound", "IUbound") and e[2] and e[2][0][0] == "var":
-            out.append(e[2][0][1])
-        return out + [x for a in e[2] for x in e_arrs(a)]
-    raise ValueError(e)
-
-
-def s_arrs(ss):
-    out = []
-    for s in ss:
-        k = s[0]
-        if k == "assign":
-            out += ([s[1]] if s[2] else []) + [x for i in s[2] for x in e_arrs(i)] + e_arrs(s[3])
-        elif k == "if":
-            out += e_arrs(s[1]) + s_arrs(s[2]) + s_arrs(s[3])
-        elif k == "do":
-            out += e_arrs(s[2]) + e_arrs(s[3]) + e_arrs(s[4]) + s_arrs(s[5])
-        elif k == "print":
-            out += [x for e in s[1] for x in e_arrs(e)]
-        elif k in ("region", "dir"):
-            out += s_arrs(s[2])
-    return out
-
-
-def py_reason(region, sh, x):
-    """mirror of InOut.reason (cross-checked against Coq for every use)."""
-    al = accs(region, sh)
-    first = [k for (y, k) in al if y == x][:1]
-    if first != ["W"]:
-        return 0
-    if x in s_arrs(region):
-        return 1
-    for s in region:
-        if x in [y for y, _ in s_accs(s, sh)]:
-            if s[0] == "do" and s[1] == x and x in [v for b in s[2:5] for v in e_reads(b, sh)]:
-                return 2
-            return 3
-    return 3
-
-
 # ------------------------------------------------------------------ implementation side
 def impl_ctu(nodes, sh):
     from psyclone.psyir.tools import CallTreeUtils
@@ -201,6 +167,26 @@ def follow(root_routine, path):
     for i in path:
         node = node.children[i]
     return node
+
+
+_MEMO = {}
+
+
+def memoise_parser_factory():
+    """ExtractNode lowering calls fparser's ParserFactory().create(std=...) once per generated PSyData call
+    (~7 ms each).  The factory only (re)configures module-level parser classes for the given standard, so
+    the harness memoises it per standard (no change of behaviour; 5x faster lowering)."""
+    from fparser.two import parser as fp
+    if getattr(fp.ParserFactory.create, "_c12_memo", False):
+        return
+    orig = fp.ParserFactory.create
+
+    def create(self, std=None):
+        if std not in _MEMO:
+            _MEMO[std] = orig(self, std=std)
+        return _MEMO[std]
+    create._c12_memo = True
+    fp.ParserFactory.create = create
 
 
 def impl_extract(psy, path, lo, hi):
@@ -325,11 +311,11 @@ def run(ctx):
     from psyclone.psyir.frontend.fortran import FortranReader
     from psyclone.psyir.nodes import Routine
     ctx.cov["rule"] = ("routines from vlib.fortgen + targeted shapes (partial array write/read, conditional scalar "
-                       "write, DO variable in own bounds, inquiry intrinsics, both-branch definitions, zero-trip loops); "
-                       "case = (consecutive-statement region of the routine body or of a loop/if body, option "
-                       "COLLECT-ARRAY-SHAPE-READS off via CallTreeUtils / on via ExtractTrans+ExtractNode); non-trivial = "
-                       "the region ran to completion from at least one grid store and reports >=1 input or output; "
-                       "distinct = region text + option")
+                       "write, DO variable in own bounds, inquiry intrinsics, both-branch definitions, zero-trip loops, "
+                       "read-modify-write assignments); case = (consecutive-statement region of the routine body or of a "
+                       "loop/if body, option COLLECT-ARRAY-SHAPE-READS off via CallTreeUtils / on via "
+                       "ExtractTrans+ExtractNode); non-trivial = the region ran to completion from at least one grid "
+                       "store and reports >=1 input or output; distinct = region text + option")
     ctx.cov["trusted_base"] = core.BASE_TRUST + [
         "coq/C12/InOut.v is a hand-written model of get_in_out_parameters/is_written_first over the C11 access-list "
         "model (C12_accs_is_C11_projection); tied to the code by this correspondence run",
@@ -346,18 +332,15 @@ def run(ctx):
 
     rng = ctx.rng("gen")
     reader = FortranReader()
-    nprog = ctx.pick(45, 420)
+    memoise_parser_factory()
+    nprog = ctx.pick(12, 160)
     nstores = ctx.pick(3, 5)
-    extract_every = ctx.pick(1, 1)
 
-    io_cases, io_meta = [], []          # correspondence cases
-    safe_cases = []                     # (region coq, sh) parallel to io_cases
-    dyn_fail = []                       # (case index, culprit, what, detail, store index)
+    regions = []        # one per region: {"coq": term, "variants": [variant dict ...], meta}
     n_refused = n_oos = 0
-    n_regions = 0
 
     def do_routine(prog, g, tag, stores):
-        nonlocal n_refused, n_oos, n_regions
+        nonlocal n_refused, n_oos
         decls = g.decls()
         txt = mf.to_fortran("sub", prog, decls)
         psy = reader.psyir_from_source(txt)
@@ -370,6 +353,8 @@ def run(ctx):
             spans = [(i, j) for i in range(nch) for j in range(i + 1, nch + 1)]
             if path and len(spans) > 3:
                 spans = rng.sample(spans, 3)
+            elif len(spans) > 12:
+                spans = rng.sample(spans, 12)
             for lo, hi in spans:
                 nodes = sched.children[lo:hi]
                 try:
@@ -377,7 +362,6 @@ def run(ctx):
                 except mf.OutOfSubset:
                     n_oos += 1
                     continue
-                n_regions += 1
                 rtxt = "\n".join(mf.stmts_to_fortran(region))
                 variants = [(False, ("ok",) + impl_ctu(nodes, False))]
                 ex = impl_extract(psy, path, lo, hi)
@@ -391,35 +375,25 @@ def run(ctx):
                 else:
                     n_refused += 1
                     ctx.hist("extract_refused", ex[1][:60])
+                reg = {"tag": tag, "region": rtxt, "stmts": region, "nm": nm, "stores": stores, "bnds": bnds,
+                       "routine": txt, "span": (path, lo, hi), "coq": mf.stmts_to_coq(region, nm), "variants": []}
                 for sh, (_, ins, outs) in variants:
-                    rc = mf.stmts_to_coq(region, nm)
-                    idx = len(io_cases)
-                    io_cases.append("(%s, %s, %s, %s)" % (rc, "true" if sh else "false",
-                                                         core.coq_list("%d%%nat" % nm.get(x) for x in ins),
-                                                         core.coq_list("%d%%nat" % nm.get(x) for x in outs)))
-                    safe_cases.append("(%s, %s)" % (rc, "true" if sh else "false"))
-                    ran = False
-                    fails_here = []
+                    ran, fails, seen = False, [], set()
                     for si, (vals, _) in enumerate(stores):
                         res = check_region(region, set(ins), set(outs), vals, bnds, allvars)
                         if res is None:
                             continue
                         ran = True
                         for culprit, what, detail in res:
-                            fails_here.append((culprit, what, detail, si))
-                    seen = set()
-                    for culprit, what, detail, si in fails_here:
-                        if (culprit, what) in seen:
-                            continue
-                        seen.add((culprit, what))
-                        dyn_fail.append((idx, culprit, what, detail, si))
-                    io_meta.append({"tag": tag, "region": rtxt, "stmts": region, "sh": sh, "ins": ins, "outs": outs,
-                                    "nm": nm, "decls": decls, "stores": stores, "bnds": bnds, "routine": txt,
-                                    "span": (path, lo, hi)})
+                            if (culprit, what) not in seen:
+                                seen.add((culprit, what))
+                                fails.append((culprit, what, detail, si))
+                    reg["variants"].append({"sh": sh, "ins": ins, "outs": outs, "fails": fails})
                     ctx.count((rtxt, sh), ran and bool(ins or outs))
                     ctx.hist("region_len", hi - lo)
                     ctx.hist("nested", bool(path))
                     ctx.hist("option_shape_reads", sh)
+                regions.append(reg)
 
     # known-finding witnesses first, then generated routines
     for wi, (key, prog) in enumerate(WITNESSES):
@@ -431,42 +405,50 @@ def run(ctx):
             vals[("i", ())] = [1, 4, 6][k]
             stores.append((vals, b))
         do_routine(prog, g, "witness:" + key, stores)
-    n_wit_cases = len(io_cases)
+    n_wit = len(regions)
     for pi in range(nprog):
         g = Gen12(rng, max_depth=2)
         prog = g.block({}, 0, False, rng.randint(2, 5))
         stores = [g.store() for _ in range(nstores)]
         do_routine(prog, g, "gen%d" % pi, stores)
+    ncases = sum(len(r["variants"]) for r in regions)
+    nfail = sum(len(v["fails"]) for r in regions for v in r["variants"])
     ctx.log("regions=%d cases=%d extract_refused=%d out_of_subset=%d dynamic failures=%d"
-            % (n_regions, len(io_cases), n_refused, n_oos, len(dyn_fail)))
+            % (len(regions), ncases, n_refused, n_oos, nfail))
     ctx.notes["out_of_subset"] = n_oos
     ctx.notes["extract_refused"] = n_refused
+    ctx.notes["dynamic_failures"] = nfail
+    ctx.notes["stores_per_region"] = nstores
 
-    # ---- model side
-    mism = ctx.coq_eval_failing(HEADER, "io_case", "io_agrees", io_cases, shard=250)
-    unsafe = set(ctx.coq_eval_failing(HEADER, "list stmt * bool", "safe_case", safe_cases, shard=250))
-    rd_unsafe = set(ctx.coq_eval_failing(HEADER, "list stmt * bool", "reads_safe_case", safe_cases, shard=250))
+    # ---- model side: one evaluation per region (lists agree, safe, reads_safe, reason codes of the culprits)
+    def names(r, xs):
+        return core.coq_list("%d%%nat" % r["nm"].get(x) for x in xs)
+    coq_cases = []
+    for r in regions:
+        vs = []
+        for v in r["variants"]:
+            culprits = [c if c in r["nm"].ids else None for c, _, _, _ in v["fails"]]
+            v["culprit_ids"] = culprits
+            vs.append("(%s, %s, %s, %s)" % ("true" if v["sh"] else "false", names(r, v["ins"]), names(r, v["outs"]),
+                                            names(r, [c for c in culprits if c is not None])))
+        coq_cases.append("(%s, %s)" % (r["coq"], core.coq_list(vs)))
+    results = coq_eval_values(ctx, HEADER, "list stmt * list variant", "eval_case", coq_cases, shard=ctx.pick(40, 60))
+    mism, n_unsafe = [], 0
+    for r, res in zip(regions, results):
+        for v, (agree, safe, rsafe, reasons) in zip(r["variants"], res):
+            v["agree"], v["safe"], v["reads_safe"] = agree, safe, rsafe
+            it = iter(reasons)
+            v["reasons"] = [next(it) if c is not None else 99 for c in v["culprit_ids"]]
+            if not agree:
+                mism.append((r, v))
+            n_unsafe += not safe
+            ctx.hist("bucket", "safe" if safe else ("gap:reads-ok-output-partial" if rsafe else "gap:reads"))
     ctx.cov["disagreements_checked"] = len(mism)
-    for i in range(len(io_cases)):
-        ctx.hist("bucket", "safe" if i not in unsafe else ("gap:reads-ok-output-partial" if i not in rd_unsafe else "gap:reads"))
-    # reason codes of the culprits, cross-checked with the model
-    reason_cases, reason_of = [], []
-    for (idx, culprit, what, detail, si) in dyn_fail:
-        m = io_meta[idx]
-        k = py_reason(m["stmts"], m["sh"], culprit) if culprit in m["nm"].ids else 99
-        reason_of.append(k)
-        if culprit in m["nm"].ids:
-            reason_cases.append("(%s, %s, %d%%nat, %d%%nat)" % (mf.stmts_to_coq(m["stmts"], m["nm"]),
-                                                                "true" if m["sh"] else "false", m["nm"].get(culprit), k))
-        else:
-            reason_cases.append("([], false, 0%nat, 1%nat)")      # fails: unknown culprit
-    bad_reason = set(ctx.coq_eval_failing(HEADER, "list stmt * bool * nat * nat", "reason_case", reason_cases, shard=250)) \
-        if reason_cases else set()
-    ctx.log("model/impl list disagreements=%d unsafe cases=%d (of %d)" % (len(mism), len(unsafe), len(io_cases)))
+    ctx.log("model/impl list disagreements=%d unsafe cases=%d (of %d)" % (len(mism), n_unsafe, ncases))
 
-    def replay_of(m, extra):
-        d = {"property": "C12", "routine": m["routine"], "region": m["region"], "region_span": m["span"],
-             "option_COLLECT_ARRAY_SHAPE_READS": m["sh"], "reported_inputs": m["ins"], "reported_outputs": m["outs"],
+    def replay_of(r, v, extra):
+        d = {"property": "C12", "routine": r["routine"], "region": r["region"], "region_span": r["span"],
+             "option_COLLECT_ARRAY_SHAPE_READS": v["sh"], "reported_inputs": v["ins"], "reported_outputs": v["outs"],
              "how_to_replay": "FortranReader().psyir_from_source(routine); CallTreeUtils().get_in_out_parameters("
                               "<children[lo:hi] of the schedule at path>) (option on: ExtractTrans().apply + written "
                               "ProvideVariable calls); run the region from the store below and from the same store with "
@@ -476,43 +458,46 @@ def run(ctx):
 
     # ---- verdicts on concrete failures
     reported = 0
-    for n, (idx, culprit, what, detail, si) in enumerate(dyn_fail):
-        m = io_meta[idx]
-        k = reason_of[n]
-        store = sorted(m["stores"][si][0].items())
-        info = replay_of(m, {"culprit_variable": culprit, "failure": what, "detail": detail, "store": store,
-                             "reason_code": k})
-        if n in bad_reason or k not in KEYS:
-            # not one of the established reasons (k = 0: the rule itself says the variable is an input)
-            if reported < 3:
-                ctx.violation(dict(info, why="failure not explained by a known is_written_first gap "
-                                             "(model reason %s, classifier agreement %s)" % (k, n not in bad_reason)))
-            reported += 1
-            continue
-        if idx not in unsafe:
-            if reported < 3:
-                ctx.violation(dict(info, why="region is inside `safe` (theorem C12_replay_sound_partial applies to the "
-                                             "model) yet the replay fails on the implementation's lists"))
-            reported += 1
-            continue
-        ctx.hist("finding_reason", KEYS[k])
-        if ctx.finding(KEYS[k], "%s: variable '%s' is not reported as input (first access is a write)" % (what, culprit), info):
-            reported += 1
+    for r in regions:
+        for v in r["variants"]:
+            for (culprit, what, detail, si), k in zip(v["fails"], v["reasons"]):
+                info = replay_of(r, v, {"culprit_variable": culprit, "failure": what, "detail": detail,
+                                        "store": sorted(r["stores"][si][0].items()), "reason_code": k})
+                if k not in KEYS:
+                    # k = 0: the first-access rule itself says the variable IS an input (or the culprit is unknown)
+                    if reported < 3:
+                        ctx.violation(dict(info, why="failure not explained by an established is_written_first gap "
+                                                     "(model reason code %s)" % k))
+                    reported += 1
+                elif v["safe"]:
+                    if reported < 3:
+                        ctx.violation(dict(info, why="region is inside `safe` (C12_replay_sound_partial holds of the model) "
+                                                     "yet the replay fails with the implementation's lists"))
+                    reported += 1
+                else:
+                    ctx.hist("finding_reason", KEYS[k])
+                    if KEYS[k] in ctx.known_printed:
+                        continue
+                    open_keys = [f.get("key") for f in ctx.known_findings() if f.get("status") == "open"]
+                    if KEYS[k] not in open_keys and reported >= 3:
+                        reported += 1
+                        continue
+                    if ctx.finding(KEYS[k], "%s: variable '%s' is not reported as input (its first access is a write)"
+                                   % (what, culprit), info):
+                        reported += 1
     # ---- correspondence / proof broken without a concrete failing input
     if not reported and (mism or not ok):
-        i = mism[0] if mism else None
-        shown = None
+        first = None
         if mism:
-            m = io_meta[i]
-            rc = mf.stmts_to_coq(m["stmts"], m["nm"])
-            shown = ctx.coq_eval_show(HEADER, ["(inputs %s %s, outputs_of (accs %s %s))"
-                                               % ("true" if m["sh"] else "false", rc, "true" if m["sh"] else "false", rc)])
+            r, v = mism[0]
+            shb = "true" if v["sh"] else "false"
+            shown = ctx.coq_eval_show(HEADER, ["(inputs %s %s, outputs_of (accs %s %s))" % (shb, r["coq"], shb, r["coq"])])
+            first = replay_of(r, v, {"model": shown, "names": r["nm"].ids})
         ctx.violation({"property": "C12",
                        "broken": "correspondence C12.InOut.inputs/outputs = get_in_out_parameters" if mism
                        else "proof obligations of Properties/C12.v", "proof_report": rep if not ok else None,
-                       "first_differing_case": replay_of(io_meta[i], {"model": shown, "names": io_meta[i]["nm"].ids}) if mism else None,
-                       "n_differing": len(mism)}, no_input=True)
-    for m in io_meta[n_wit_cases:n_wit_cases + 3]:
-        ctx.sample({"region": m["region"], "shape_reads": m["sh"], "inputs": m["ins"], "outputs": m["outs"]})
-    ctx.notes["dynamic_failures"] = len(dyn_fail)
-    ctx.notes["stores_per_region"] = nstores
+                       "first_differing_case": first, "n_differing": len(mism)}, no_input=True)
+    for r in regions[n_wit:n_wit + 3]:
+        v = r["variants"][-1]
+        ctx.sample({"region": r["region"], "shape_reads": v["sh"], "inputs": v["ins"], "outputs": v["outs"],
+                    "safe": v["safe"]})
